@@ -291,7 +291,9 @@ pub fn msg_class(msg: &str) -> String {
 }
 
 fn enclosing_fn(file: &str, line: u32) -> Option<String> {
-    let src = std::fs::read_to_string(file).ok()?;
+    // rustc reports the path relative to the crate directory when the include path is relative
+    let path = if file.starts_with('/') { file.to_string() } else { format!("{}/{}", env!("CARGO_MANIFEST_DIR"), file) };
+    let src = std::fs::read_to_string(&path).ok()?;
     let lines: Vec<&str> = src.lines().collect();
     let mut i = (line as usize).min(lines.len());
     while i > 0 {
